@@ -612,15 +612,15 @@ def main():
         summary['monitors'] = tabs
         with open(os.path.join(a.lean, 'Monitors.lean'), 'w') as f:
             f.write(monitors.lean_text(tabs))
-    except (monitors.Unsupported, KeyError, IndexError) as e:
-        summary['untranslated']['monitors'] = str(e)
+    except (monitors.Unsupported, KeyError, IndexError, AttributeError, TypeError, ValueError) as e:
+        summary['untranslated']['monitors'] = str(e) or type(e).__name__
         with open(os.path.join(a.lean, 'Monitors.lean'), 'w') as f:
             f.write(monitors.lean_text({}))
     try:
         gs = monitors.guards(a.ast)
         summary['guards'] = [[g[0], g[2], g[3]] for g in gs]
-    except (monitors.Unsupported, KeyError, IndexError) as e:
-        summary['untranslated']['guards'] = str(e)
+    except (monitors.Unsupported, KeyError, IndexError, AttributeError, TypeError, ValueError) as e:
+        summary['untranslated']['guards'] = str(e) or type(e).__name__
         gs = []
     with open(os.path.join(a.lean, 'Guards.lean'), 'w') as f:
         f.write(monitors.lean_guards_text(gs))
